@@ -11,18 +11,32 @@ Record Rel (p : pstate) (stk : list nat) (home : nat -> nat) : Prop := {
 
 Definition absp (p : pstate) (stk : list nat) (home : nat -> nat) : astate := abs (pst p) (plog p) stk home.
 
+(* events that put an identifier occurrence into the tree *)
+Definition nocc1 (e : event) : Z :=
+  match e with
+  | EDeclare _ _ | EUse _ | EParamOrUse _ | EClassExprName _ => 1
+  | _ => 0
+  end.
+
+Fixpoint nocc (evs : list event) : Z :=
+  match evs with [] => 0 | e :: t => nocc1 e + nocc t end.
+
+Lemma nocc_nonneg evs : 0 <= nocc evs.
+Proof. induction evs as [|e t IH]; cbn [nocc]; [lia|]. destruct e; cbn [nocc1]; lia. Qed.
+
 Lemma sim_step p stk home e :
-  Rel p stk home -> len (plog p) < 65535 ->
+  Rel p stk home -> len (plog p) + nocc1 e < 65536 ->
   match astep (absp p stk home) e with
   | ARun a' => exists p' stk' home', pstep p e = Running p' /\ Rel p' stk' home' /\ a' = absp p' stk' home'
-                                     /\ len (plog p') <= len (plog p) + 1
+                                     /\ len (plog p') <= len (plog p) + nocc1 e
   | ARej => pstep p e = Rejected
   | AStuck => True
   end.
 Proof.
   intros [Rc RS RU] Hlen. destruct p as [st cur log]. cbn [pst plog pcur] in *. unfold absp. cbn [pst plog].
+  pose proof (len_nonneg log) as Hlog0.
   destruct stk as [|c rest]; [destruct (I_stack _ _ _ _ _ RS)|]. cbn [hd_error] in Rc. subst cur.
-  destruct e; cbn [astep]; try exact I.
+  destruct e; cbn [astep nocc1] in *; try exact I.
   - (* EEnter *)
     destruct (enter_all st log (c :: rest) c rest home is_func eq_refl RS RU) as (H1 & H2 & H3 & H4).
     rewrite H4. eexists (mkP _ _ _), (nscopes st :: c :: rest), home. cbn [pstep of_res]. rewrite H1. cbn [of_res].
@@ -34,14 +48,14 @@ Proof.
     split; [reflexivity|]. split; [constructor; [reflexivity|assumption|assumption]|]. split; [reflexivity|]. cbn [plog]. lia.
   - (* EDeclare *)
     destruct (Z.eqb_spec decl NoDecl) as [|Hd]; [exact I|].
-    pose proof (sim_declare st log (c :: rest) c rest home decl name eq_refl RS RU Hlen Hd) as H.
+    pose proof (sim_declare st log (c :: rest) c rest home decl name eq_refl RS RU ltac:(lia) Hd) as H.
     destruct (a_declare (abs st log (c :: rest) home) decl name) as [a'| |]; [| |exact I].
     + destruct H as (st' & v & home' & H1 & H2 & H3 & H4).
       exists (mkP st' (Some c) (v :: log)), (c :: rest), home'. cbn [pstep pcur pst plog]. rewrite H1.
       split; [reflexivity|]. split; [constructor; [reflexivity|assumption|assumption]|]. split; [exact H4|]. cbn [plog]. rewrite len_cons. lia.
     + destruct H as (st' & H1). cbn [pstep pcur pst]. rewrite H1. reflexivity.
   - (* EUse *)
-    destruct (sim_use st log (c :: rest) c rest home name eq_refl RS RU Hlen) as (st' & v & home' & H1 & H2 & H3 & H4).
+    destruct (sim_use st log (c :: rest) c rest home name eq_refl RS RU ltac:(lia)) as (st' & v & home' & H1 & H2 & H3 & H4).
     rewrite H4. exists (mkP st' (Some c) (v :: log)), (c :: rest), home'. cbn [pstep pcur pst plog]. rewrite H1.
     split; [reflexivity|]. split; [constructor; [reflexivity|assumption|assumption]|]. split; [reflexivity|]. cbn [plog]. rewrite len_cons. lia.
   - (* EMarkArgs *)
@@ -51,7 +65,7 @@ Proof.
 Qed.
 
 Lemma sim_run : forall evs p stk home,
-  Rel p stk home -> len (plog p) + len evs < 65536 ->
+  Rel p stk home -> len (plog p) + nocc evs < 65536 ->
   match arun (absp p stk home) evs with
   | ARun a' => exists p' stk' home', prun p evs = Running p' /\ Rel p' stk' home' /\ a' = absp p' stk' home'
   | ARej => prun p evs = Rejected
@@ -60,7 +74,7 @@ Lemma sim_run : forall evs p stk home,
 Proof.
   induction evs as [|e evs IH]; intros p stk home R Hlen.
   - cbn. exists p, stk, home. split; [reflexivity|]. split; [exact R|reflexivity].
-  - rewrite len_cons in Hlen. pose proof (len_nonneg evs) as Hnn.
+  - cbn [nocc] in Hlen. pose proof (nocc_nonneg evs) as Hnn.
     cbn [arun prun]. pose proof (sim_step p stk home e R ltac:(lia)) as Hs.
     destruct (astep (absp p stk home) e) as [a1| |]; [| |exact I].
     + destruct Hs as (p1 & stk1 & home1 & H1 & R1 & -> & Hl). rewrite H1. apply IH; [exact R1|lia].
@@ -103,7 +117,7 @@ Qed.
 
 (* the whole program: module scope entered, then the events *)
 Theorem sim_program evs :
-  len evs < 65536 ->
+  nocc evs < 65536 ->
   match arun init_astate (EEnter true :: evs) with
   | ARun a' => exists p' stk' home', prun init_pstate (EEnter true :: evs) = Running p' /\ Rel p' stk' home'
                                      /\ a' = absp p' stk' home'
@@ -112,5 +126,5 @@ Theorem sim_program evs :
   end.
 Proof.
   intros Hlen. cbn [arun prun]. rewrite astep_init, pstep_init.
-  apply sim_run; [exact Rel_init|]. cbn [plog p0]. unfold len at 1. cbn. lia.
+  apply sim_run; [exact Rel_init|]. cbn [plog p0]. unfold len. cbn. lia.
 Qed.
